@@ -1262,6 +1262,17 @@ package stats
 //@   ensures [frame]          k.Sample == old(k.Sample) && k.Kernel == old(k.Kernel) && k.BoundaryMethod == old(k.BoundaryMethod) && k.BoundaryMin == old(k.BoundaryMin) && k.BoundaryMax == old(k.BoundaryMax)
 //@   assigns k.Bandwidth
 
+// The same body once more with IEEE infinities (model xreal): a boundary that
+// is +-Inf counts as set - the one-sided KDEs have BoundaryMin or BoundaryMax
+// infinite, possibly with the other boundary exactly 0.
+//@ func KDE.prepare@xreal
+//@   model xreal
+//@   requires k != nil && k.Bandwidth != 0 && (k.Kernel == EpanechnikovKernel || k.Kernel == GaussianKernel || k.Kernel == DeltaKernel)
+//@   results kernel, bc
+//@   ensures [bc] bc <==> (k.BoundaryMin != 0 || k.BoundaryMax != 0)
+//@   ensures [bc-infinite] (isinf(k.BoundaryMin) || isinf(k.BoundaryMax)) ==> bc
+//@   assigns k.Bandwidth
+
 // The kernel average y(x) of KDE.PDF / KDE.CDF as a literal with a contract
 // of its own: deterministic, reads only.
 //@ func KDE.PDF#lit1
